@@ -478,6 +478,7 @@ func runC09(c *Ctx) {
 	c09Unjournaled(c, t)
 	c09FrozenEntries(c, c.W)
 	c09QueueUndo(c, c.W)
+	c09DistinctUpdateArgs(c, c.W)
 }
 
 // c09Bookkeeping: the journal's own bookkeeping that revert exactness rests on.
@@ -1142,9 +1143,20 @@ func statGuards(fn *ssa.Function) map[string]bool {
 // the old one; whoever edits an entry's amounts in place (big.Int mutators on
 // DelegationFrom.Token / Stake, also through a closure that receives them as
 // arguments) must work on a record obtained with DeepCopy.
+func c09DistinctUpdateArgs(c *Ctx, w *World) {
+	c.Rule("C09.J12", "SAME-VALUE", "the journal's pre-image of a validator update is not the record that replaces it: at every UpdateValidator(new, old) call site the two arguments can never be one and the same object (values followed through phis and local variables share no source) — otherwise the edit was made in place on the only copy and RevertToSnapshot restores a record that already carries it (shared with C08.V13)")
+	c.Min(10)
+	distinctUpdateArgs(c, w)
+}
+
 func c09FrozenEntries(c *Ctx, w *World) {
-	c.Rule("C09.J10", "TYPESTATE", "the delegation entries of a journaled validator record are frozen: in package staking an in-place edit of an entry's amounts (a mutating big.Int method on DelegationFrom.Token / Stake, also inside a closure that receives them as arguments) acts on an entry of a record obtained with DeepCopy — PartialCopy shares the *DelegationFrom entries with the record that becomes the journal's pre-image, so a penalty applied through it survives RevertToSnapshot in the entry (495 instead of 500) while totals and statistics are restored")
+	c.Rule("C09.J10", "TYPESTATE", "the delegation entries of a journaled validator record are frozen: in packages staking and core/state an in-place edit of an entry's amounts (a mutating big.Int method on DelegationFrom.Token / Stake, also inside a closure that receives them as arguments) acts on an entry of a record obtained with DeepCopy — PartialCopy shares the *DelegationFrom entries with the record that becomes the journal's pre-image, so a penalty applied through it survives RevertToSnapshot in the entry (495 instead of 500) while totals and statistics are restored")
 	c.Min(1)
+	frozenEntries(c, w)
+}
+
+// frozenEntries is shared by C09.J10 and C08.V12.
+func frozenEntries(c *Ctx, w *World) {
 	mutators := map[string]bool{"Set": true, "Sub": true, "Add": true, "Mul": true, "Div": true, "Quo": true, "Rem": true, "Mod": true, "SetUint64": true, "SetInt64": true, "SetBytes": true, "Neg": true, "Lsh": true, "Rsh": true, "QuoRem": true, "DivMod": true}
 	dfT := w.Named(statePkg, "DelegationFrom")
 	isEntryField := func(v ssa.Value) (ssa.Value, bool) {
@@ -1157,10 +1169,72 @@ func c09FrozenEntries(c *Ctx, w *World) {
 		}
 		return base, true
 	}
+	// returnsFresh: every result of g is nil, a DeepCopy() result, a constructor's result or a new object — the
+	// getter hands out a copy, never the live entry
+	freshMemo := map[*ssa.Function]int{}
+	var returnsFresh func(g *ssa.Function) bool
+	returnsFresh = func(g *ssa.Function) bool {
+		if g == nil || g.Blocks == nil {
+			return false
+		}
+		if m, ok := freshMemo[g]; ok {
+			return m == 1
+		}
+		freshMemo[g] = 2
+		ok := true
+		var judge func(v ssa.Value, seen map[ssa.Value]bool) bool
+		judge = func(v ssa.Value, seen map[ssa.Value]bool) bool {
+			v = stripConvNoBind(v)
+			if seen[v] {
+				return true
+			}
+			seen[v] = true
+			switch x := v.(type) {
+			case *ssa.Const:
+				return x.IsNil()
+			case *ssa.Alloc:
+				return true
+			case *ssa.Phi:
+				for _, e := range x.Edges {
+					if !judge(e, seen) {
+						return false
+					}
+				}
+				return true
+			case *ssa.Call:
+				if co := calleeObj(x); co != nil && co.Name() == "DeepCopy" {
+					return true
+				}
+				return returnsFresh(x.Call.StaticCallee())
+			}
+			return false
+		}
+		for _, b := range g.Blocks {
+			if ret, isRet := b.Instrs[len(b.Instrs)-1].(*ssa.Return); isRet && len(ret.Results) > 0 {
+				if !judge(ret.Results[0], map[ssa.Value]bool{}) {
+					ok = false
+				}
+			}
+		}
+		freshMemo[g] = 2
+		if ok {
+			freshMemo[g] = 1
+		}
+		return ok
+	}
 	n := 0
-	for _, fn := range w.FuncsIn("staking") {
+	for _, fn := range append(w.FuncsIn("staking"), w.FuncsIn(statePkg)...) {
 		if fn.Blocks == nil || fn.Parent() != nil || strings.HasSuffix(w.fileOf(fn.Pos()), "_test.go") {
 			continue
+		}
+		if fn.Pkg != nil && fn.Pkg.Pkg.Path() == full(statePkg) {
+			// the entry type's own methods, copy constructors and decoders build or copy entries
+			if fn.Signature.Recv() != nil && types.Identical(deref(fn.Signature.Recv().Type()), dfT) {
+				continue
+			}
+			if nm := fn.Name(); nm == "DeepCopy" || nm == "Copy" || nm == "PartialCopy" || nm == "DecodeRLP" || strings.HasPrefix(nm, "New") {
+				continue
+			}
 		}
 		all := withClosures(fn)
 		// bindings of closure parameters to the arguments at their call sites inside fn (and its closures)
@@ -1231,6 +1305,13 @@ func c09FrozenEntries(c *Ctx, w *World) {
 									deep = true
 								case "PartialCopy":
 									shared = "PartialCopy"
+								case "GetDelegationFrom", "NewDelegationFrom":
+									// a getter / constructor of entries: fresh only if it hands out a copy on every return
+									if g := cc.Call.StaticCallee(); returnsFresh(g) {
+										deep = true
+									} else if shared == "" {
+										shared = co.Name() + " (which returns the live entry)"
+									}
 								default:
 									if strings.HasPrefix(co.Name(), "GetValidator") && shared == "" {
 										shared = co.Name()
